@@ -9,7 +9,8 @@
 // only. hash_elements / merge are compared end to end with the documented sponge run on the reference permutation.
 // Bound: states with every lane from a list of boundary values (0, 1, p - 1, 2^32 - 1, 2^32, 2^63 - 1, ...), each boundary
 // value alone in each lane, 300 seeded states, every round index; element lists of 0..20 elements for the sponges.
-use winter_crypto::hashers::{Rp64_256, RpJive64_256};
+use winter_crypto::hashers::{Rp62_248, Rp64_256, RpJive64_256};
+use winter_crypto::Digest;
 use winter_crypto::{ElementHasher, Hasher};
 use math::{fields::f64::BaseElement, FieldElement, StarkField};
 
@@ -251,4 +252,129 @@ fn rescue_sponges_bounded() {
         }
     }
     println!("NB-RESULT name=rescue_sponges_bounded cases={cases}");
+}
+
+// ------------------------------------------------------------------------------------------------
+// Relations between the functions of each Rescue hasher (public API only, so Rp62_248 - which does not expose its permutation -
+// is covered too), the native counterparts of Kani contracts that moved to the thorough tier because of their cost:
+//   hash(bytes)            == hash_elements(encode(bytes)), encode = 7-byte little-endian chunks, the last one followed by 0x01
+//   merge([a, b])          == hash_elements(a || b)                                   (Rp64_256, Rp62_248)
+//   merge_with_int(s, v)   == hash_elements(s || [v])            for v < p
+//                          == hash_elements(s || [v mod p, v div p])   otherwise     (Rp64_256, Rp62_248)
+//   RpJive64_256: merge / merge_with_int == Jive compression of the 8-element block (s, v', flag, 0, count) over the reference
+//   permutation; and merge_with_int is injective in the integer on the boundary set.
+// Bound: byte strings of every length 0..=130 (3 contents each), 12 boundary integers x 3 seeds.
+fn encode<B: StarkField>(bytes: &[u8]) -> Vec<B> {
+    let mut out = Vec::new();
+    let n = bytes.len();
+    let mut start = 0;
+    while start < n {
+        let end = if start + 7 < n { start + 7 } else { n };
+        let mut buf = [0u8; 8];
+        buf[..end - start].copy_from_slice(&bytes[start..end]);
+        if end == n {
+            buf[end - start] = 1;
+        }
+        out.push(B::try_from(u64::from_le_bytes(buf)).ok().expect("chunk below the modulus"));
+        start = end;
+    }
+    out
+}
+
+fn relations<B, H>(name: &str, p: u128, sponge_merge: bool, elems: fn(&H::Digest) -> Vec<B>, rng: &mut Rng, cases: &mut u64)
+where
+    B: StarkField,
+    H: ElementHasher<BaseField = B>,
+    H::Digest: PartialEq + core::fmt::Debug + Copy,
+{
+    for len in 0..=130usize {
+        for content in 0..3 {
+            *cases += 1;
+            let bytes: Vec<u8> = (0..len).map(|_| match content { 0 => 0u8, 1 => 0xFF, _ => rng.next() as u8 }).collect();
+            let got = std::panic::catch_unwind(|| H::hash(&bytes));
+            match got {
+                Err(_) => fail(format!("{name}::hash panics on a {len}-byte input")),
+                Ok(d) => {
+                    if d != H::hash_elements(&encode::<B>(&bytes)) {
+                        fail(format!("{name}::hash of a {len}-byte input (content class {content}) != hash_elements(encode(bytes))"));
+                    }
+                },
+            }
+        }
+    }
+    let mut ints: Vec<u64> = vec![0, 1, 2, (p - 1) as u64, p as u64, (p + 1) as u64, (2 * p.min(u64::MAX as u128 / 2)) as u64, 1 << 32, 1 << 62, 1 << 63, u64::MAX - 1, u64::MAX];
+    ints.sort();
+    ints.dedup();
+    for s in 0..3 {
+        let a = H::hash_elements(&[B::from(7u32 + s), B::from(11u32)]);
+        let b = H::hash_elements(&[B::from(13u32 + s)]);
+        if sponge_merge {
+            *cases += 1;
+            let mut cat: Vec<B> = elems(&a);
+            cat.extend(elems(&b));
+            if H::merge(&[a, b]) != H::hash_elements(&cat) {
+                fail(format!("{name}::merge([a, b]) != hash_elements(a || b)"));
+            }
+        }
+        let mut seen: Vec<(u64, H::Digest)> = Vec::new();
+        for &v in &ints {
+            *cases += 1;
+            let d = H::merge_with_int(a, v);
+            if sponge_merge {
+                let mut e = elems(&a);
+                if (v as u128) < p {
+                    e.push(B::try_from(v).ok().unwrap());
+                } else {
+                    e.push(B::try_from((v as u128 % p) as u64).ok().unwrap());
+                    e.push(B::try_from((v as u128 / p) as u64).ok().unwrap());
+                }
+                if d != H::hash_elements(&e) {
+                    fail(format!("{name}::merge_with_int(seed, {v}) != hash_elements(seed || split({v}))"));
+                }
+            }
+            for (w, dw) in &seen {
+                if *dw == d {
+                    fail(format!("{name}::merge_with_int(seed, {v}) == merge_with_int(seed, {w})"));
+                }
+            }
+            seen.push((v, d));
+        }
+    }
+}
+
+#[test]
+fn rescue_hash_relations_bounded() {
+    let mut rng = Rng(0x8EBC6AF09C88C6E3 ^ seed().wrapping_mul(0x589965CC75374CC3) | 1);
+    let mut cases = 0u64;
+    relations::<BaseElement, Rp64_256>("Rp64_256", P, true, |d| d.as_elements().to_vec(), &mut rng, &mut cases);
+    relations::<math::fields::f62::BaseElement, Rp62_248>("Rp62_248", <math::fields::f62::BaseElement as StarkField>::MODULUS as u128, true, |d| d.as_elements().to_vec(), &mut rng, &mut cases);
+    relations::<BaseElement, RpJive64_256>("RpJive64_256", P, false, |d| d.as_elements().to_vec(), &mut rng, &mut cases);
+    // RpJive64_256: merge and merge_with_int are Jive compressions of the documented block over the reference permutation
+    let mds8 = matrix::<8>(&RpJive64_256::MDS);
+    let jive = |block: [u128; 8]| -> Vec<u128> {
+        let mut s = block;
+        ref_perm::<8>(&mut s, &mds8, &RpJive64_256::ARK1, &RpJive64_256::ARK2);
+        (0..4).map(|i| (block[i] + block[4 + i] + s[i] + s[4 + i]) % P).collect()
+    };
+    for k in 0..3u32 {
+        let a = RpJive64_256::hash_elements(&[BaseElement::from(3u32 + k)]);
+        let b = RpJive64_256::hash_elements(&[BaseElement::from(5u32 + k), BaseElement::from(1u32)]);
+        let (ae, be) = (ints(&<[BaseElement; 4]>::try_from(a.as_elements()).unwrap()), ints(&<[BaseElement; 4]>::try_from(b.as_elements()).unwrap()));
+        cases += 1;
+        let m = RpJive64_256::merge(&[a, b]);
+        let got: Vec<u128> = m.as_elements().iter().map(|e| e.as_int() as u128).collect();
+        if got != jive([ae[0], ae[1], ae[2], ae[3], be[0], be[1], be[2], be[3]]) {
+            fail("RpJive64_256::merge is not the Jive compression of a || b".to_string());
+        }
+        for v in [0u64, 1, (P - 1) as u64, P as u64, (P + 1) as u64, u64::MAX] {
+            cases += 1;
+            let d = RpJive64_256::merge_with_int(a, v);
+            let got: Vec<u128> = d.as_elements().iter().map(|e| e.as_int() as u128).collect();
+            let block = if (v as u128) < P { [ae[0], ae[1], ae[2], ae[3], v as u128, 0, 0, 5] } else { [ae[0], ae[1], ae[2], ae[3], v as u128 - P, 1, 0, 6] };
+            if got != jive(block) {
+                fail(format!("RpJive64_256::merge_with_int(seed, {v}) is not the Jive compression of the documented block"));
+            }
+        }
+    }
+    println!("NB-RESULT name=rescue_hash_relations_bounded cases={cases}");
 }
